@@ -5,8 +5,10 @@ From Coq Require Import Lia.
 Require Import Base M_Greenback.
 
 (* ---- reference: the user's call stack, and what "hidden bridging internals" means *)
-Fixpoint ulog (n : nat) : list fk :=
-  match n with 0 => [] | S m => FA (S m) :: FS (S m) :: ulog m end.
+(* the user's call stack of levels n..1; when await_ is given a non-coroutine awaitable, the
+   adapt_awaitable coroutine and the awaitable's __await__ are (visible) frames on the way *)
+Fixpoint ulog (awt : bool) (n : nat) : list fk :=
+  match n with 0 => [] | S m => FA (S m) :: FS (S m) :: wrapl awt ++ ulog awt m end.
 
 Definition visible (l : list (fk * bool)) : list fk := map fst (filter (fun e => negb (snd e)) l).
 
@@ -100,24 +102,27 @@ Qed.
 Lemma drv_cases err m : drv err m = FSend \/ drv err m = FSendE.
 Proof. unfold drv. destruct (option_eqb Nat.eqb err (Some m)); auto. Qed.
 
-Lemma up_noswitch err n : forallb (fun k => negb (is_switch k)) (up err n) = true.
+Lemma up_noswitch err awt n : forallb (fun k => negb (is_switch k)) (up err awt n) = true.
 Proof.
   induction n as [|m IH]; simpl; [reflexivity|].
-  destruct (drv_cases err m) as [-> | ->]; exact IH.
+  destruct (drv_cases err m) as [-> | ->]; destruct awt; exact IH.
 Qed.
 
-Lemma filter_up err n : filter (fun k => negb (hidden k)) (up err n) = ulog n.
+Lemma filter_up err awt n : filter (fun k => negb (hidden k)) (up err awt n) = ulog awt n.
 Proof.
   induction n as [|m IH]; simpl; [reflexivity|].
-  destruct (drv_cases err m) as [-> | ->]; simpl; rewrite IH; reflexivity.
+  destruct (drv_cases err m) as [-> | ->]; destruct awt; simpl; simpl in IH; rewrite IH; reflexivity.
 Qed.
 
-Lemma filter_out err n : filter (fun k => negb (hidden k)) (out err n) = ulog n.
+(* seen from outside, the wrapper frames of the innermost await_ come with its coroutine *)
+Lemma filter_out err awt n :
+  filter (fun k => negb (hidden k)) (out err awt (S n)) ++ wrapl awt = ulog awt (S n).
 Proof.
-  induction n as [|m IH]; [reflexivity|].
-  destruct m as [|m]; [reflexivity|].
-  change (out err (S (S m))) with (seg (S (S m)) ++ drv err (S m) :: out err (S m)).
-  simpl. simpl in IH. destruct (drv_cases err (S m)) as [-> | ->]; simpl; rewrite IH; reflexivity.
+  induction n as [|m IH]; [destruct awt; reflexivity|].
+  change (out err awt (S (S m))) with (seg (S (S m)) ++ drv err (S m) :: wrapl awt ++ out err awt (S m)).
+  change (ulog awt (S (S m))) with (FA (S (S m)) :: FS (S (S m)) :: wrapl awt ++ ulog awt (S m)).
+  rewrite <- IH.
+  destruct (drv_cases err (S m)) as [-> | ->]; destruct awt; reflexivity.
 Qed.
 
 Lemma filter_nested j : filter (fun k => negb (hidden k)) (repeat FNested j) = repeat FNested j.
@@ -130,13 +135,17 @@ Lemma last_snoc {A} (l : list A) x d : last (l ++ [x]) d = x.
 Proof. induction l as [|y l IH]; [reflexivity|]. simpl. rewrite IH. destruct (l ++ [x]) eqn:E; [destruct l; discriminate|reflexivity]. Qed.
 
 (* the innermost await_ of a task seen from outside has no next frame and hands over its coro *)
-Lemma pass_out sc err m : pass sc (out err (S m)) = (marks (out err (S m)), Some (OCoro 0), false).
+Lemma pass_out sc err awt m :
+  pass sc (out err awt (S m)) = (marks (out err awt (S m)), Some (OCoro 0), false).
 Proof.
   induction m as [|m IH]; [reflexivity|].
-  change (out err (S (S m))) with (FA (S (S m)) :: FS (S (S m)) :: FAwait (S (S m)) :: drv err (S m) :: out err (S m)).
+  change (out err awt (S (S m))) with
+    (FA (S (S m)) :: FS (S (S m)) :: FAwait (S (S m)) :: drv err (S m) :: wrapl awt ++ out err awt (S m)).
   apply pass_step; [reflexivity|]. apply pass_step; [reflexivity|].
   apply pass_step; [destruct (drv_cases err (S m)) as [-> | ->]; reflexivity|].
-  apply pass_step; [destruct (drv_cases err (S m)) as [-> | ->]; reflexivity|]. exact IH.
+  apply pass_step; [destruct (drv_cases err (S m)) as [-> | ->]; reflexivity|].
+  destruct awt; [|exact IH].
+  apply pass_step; [reflexivity|]. apply pass_step; [reflexivity|]. exact IH.
 Qed.
 
 Lemma run_S f sc o acc :
@@ -147,34 +156,34 @@ Lemma run_S f sc o acc :
 Proof. reflexivity. Qed.
 
 (* ---- inside the task, j greenlets below its sync code *)
-Definition inside_stack (n j : nat) : list fk :=
-  FShimCoro :: FTarget :: ulog n ++ [FA 0; FLeaf] ++ repeat FNested (S j) ++ [FProbe].
+Definition inside_stack (awt : bool) (n j : nat) : list fk :=
+  FShimCoro :: FTarget :: ulog awt n ++ [FA 0; FLeaf] ++ repeat FNested (S j) ++ [FProbe].
 
-Lemma greenback_inside n j err aio :
-  exists l, gb_extract {| sc_inside := true; sc_n := n; sc_j := j; sc_err := err; sc_aio := aio |} = GOk l
-            /\ visible l = inside_stack n j
+Lemma greenback_inside n j err aio awt :
+  exists l, gb_extract {| sc_inside := true; sc_n := n; sc_j := j; sc_err := err; sc_aio := aio; sc_awt := awt |} = GOk l
+            /\ visible l = inside_stack awt n j
             /\ (forall k h, In (k, h) l -> bridging k = true -> h = true).
 Proof.
-  set (sc := {| sc_inside := true; sc_n := n; sc_j := j; sc_err := err; sc_aio := aio |}).
+  set (sc := {| sc_inside := true; sc_n := n; sc_j := j; sc_err := err; sc_aio := aio; sc_awt := awt |}).
   set (fr := unwrap sc OTask).
   assert (Hp : pass sc fr = (marks fr, None, false)).
   { apply pass_calm.
-    - unfold fr, unwrap. simpl sc_inside. cbv iota. simpl sc_n. simpl sc_j. simpl sc_err.
+    - unfold fr, unwrap. simpl sc_inside. cbv iota. simpl sc_n. simpl sc_j. simpl sc_err. simpl sc_awt.
       rewrite !forallb_app. rewrite up_noswitch. rewrite nested_noswitch.
       destruct (drv_cases err n) as [-> | ->]; reflexivity.
     - unfold fr, unwrap. simpl sc_inside. cbv iota.
       rewrite !app_assoc. rewrite last_snoc. reflexivity. }
   exists (marks fr). split; [|split].
   - unfold gb_extract. rewrite run_S. fold fr. rewrite Hp. reflexivity.
-  - rewrite visible_marks. unfold fr, unwrap. simpl sc_inside. cbv iota. simpl sc_n. simpl sc_j. simpl sc_err.
+  - rewrite visible_marks. unfold fr, unwrap. simpl sc_inside. cbv iota. simpl sc_n. simpl sc_j. simpl sc_err. simpl sc_awt.
     rewrite !filter_app. rewrite filter_up. rewrite filter_nested.
     destruct (drv_cases err n) as [-> | ->]; reflexivity.
   - apply (all_bridging_hidden sc). unfold gb_extract. rewrite run_S. fold fr. rewrite Hp. reflexivity.
 Qed.
 
 (* ---- outside the task (parked at level 0 in a regular await) *)
-Definition outside_stack (n : nat) : list fk :=
-  FShimCoro :: FTarget :: ulog n ++ [FA 0; FWait].
+Definition outside_stack (awt : bool) (n : nat) : list fk :=
+  FShimCoro :: FTarget :: ulog awt n ++ [FA 0; FWait].
 
 Lemma pass_park sc : pass sc (park sc) = (marks (park sc), None, false).
 Proof. unfold park. destruct (sc_aio sc); reflexivity. Qed.
@@ -182,12 +191,12 @@ Proof. unfold park. destruct (sc_aio sc); reflexivity. Qed.
 Lemma visible_park sc : visible (marks (park sc)) = [FA 0; FWait].
 Proof. unfold park. destruct (sc_aio sc); reflexivity. Qed.
 
-Lemma greenback_outside n err aio :
-  exists l, gb_extract {| sc_inside := false; sc_n := n; sc_j := 0; sc_err := err; sc_aio := aio |} = GOk l
-            /\ visible l = outside_stack n
+Lemma greenback_outside n err aio awt :
+  exists l, gb_extract {| sc_inside := false; sc_n := n; sc_j := 0; sc_err := err; sc_aio := aio; sc_awt := awt |} = GOk l
+            /\ visible l = outside_stack awt n
             /\ (forall k h, In (k, h) l -> bridging k = true -> h = true).
 Proof.
-  set (sc := {| sc_inside := false; sc_n := n; sc_j := 0; sc_err := err; sc_aio := aio |}).
+  set (sc := {| sc_inside := false; sc_n := n; sc_j := 0; sc_err := err; sc_aio := aio; sc_awt := awt |}).
   destruct n as [|m].
   - assert (H : gb_extract sc = GOk (marks [FShimCoro; FShim] ++ marks [FTramp] ++ marks (FTarget :: park sc))).
     { unfold gb_extract. rewrite run_S.
@@ -202,30 +211,37 @@ Proof.
       unfold marks at 3. rewrite map_app. fold (marks [FTarget]). fold (marks (park sc)).
       rewrite visible_app. rewrite visible_park. reflexivity.
     + apply (all_bridging_hidden sc). exact H.
-  - assert (H : gb_extract sc =
-                GOk (marks [FShimCoro; FShim] ++ marks (FTramp :: drv err (S m) :: FTarget :: out err (S m))
-                     ++ marks (park sc))).
+  - assert (Hw : pass sc (wrapl awt ++ park sc) = (marks (wrapl awt ++ park sc), None, false)).
+    { destruct awt; [|exact (pass_park sc)].
+      apply pass_step; [reflexivity|]. apply pass_step; [reflexivity|]. exact (pass_park sc). }
+    assert (H : gb_extract sc =
+                GOk (marks [FShimCoro; FShim] ++ marks (FTramp :: drv err (S m) :: FTarget :: out err awt (S m))
+                     ++ marks (wrapl awt ++ park sc))).
     { unfold gb_extract. rewrite run_S.
       change (pass sc (unwrap sc OTask)) with (marks [FShimCoro; FShim], Some OChild, false). cbv iota beta.
       rewrite run_S.
-      change (unwrap sc OChild) with (FTramp :: drv err (S m) :: FTarget :: out err (S m)).
-      assert (Hc : pass sc (FTramp :: drv err (S m) :: FTarget :: out err (S m))
-                   = (marks (FTramp :: drv err (S m) :: FTarget :: out err (S m)), Some (OCoro 0), false)).
+      change (unwrap sc OChild) with (FTramp :: drv err (S m) :: FTarget :: out err awt (S m)).
+      assert (Hc : pass sc (FTramp :: drv err (S m) :: FTarget :: out err awt (S m))
+                   = (marks (FTramp :: drv err (S m) :: FTarget :: out err awt (S m)), Some (OCoro 0), false)).
       { apply pass_step; [destruct (drv_cases err (S m)) as [-> | ->]; reflexivity|].
         apply pass_step; [destruct (drv_cases err (S m)) as [-> | ->]; reflexivity|].
         apply pass_step; [reflexivity|]. apply pass_out. }
       rewrite Hc. cbv iota beta.
-      rewrite run_S. change (unwrap sc (OCoro 0)) with (park sc). rewrite pass_park. cbv iota beta.
+      rewrite run_S. change (unwrap sc (OCoro 0)) with (wrapl awt ++ park sc). rewrite Hw. cbv iota beta.
       rewrite <- app_assoc. reflexivity. }
     eexists. split; [exact H|]. split.
-    + rewrite !visible_app. rewrite visible_park. rewrite !visible_marks.
-      change (FTramp :: drv err (S m) :: FTarget :: out err (S m)) with ([FTramp; drv err (S m); FTarget] ++ out err (S m)).
-      rewrite filter_app. rewrite filter_out.
-      destruct (drv_cases err (S m)) as [-> | ->]; reflexivity.
+    + rewrite !visible_app. unfold marks at 3. rewrite map_app.
+      fold (marks (wrapl awt)). fold (marks (park sc)). rewrite visible_app. rewrite visible_park.
+      rewrite !visible_marks.
+      change (FTramp :: drv err (S m) :: FTarget :: out err awt (S m)) with ([FTramp; drv err (S m); FTarget] ++ out err awt (S m)).
+      rewrite filter_app.
+      assert (Hwv : filter (fun k => negb (hidden k)) (wrapl awt) = wrapl awt) by (destruct awt; reflexivity).
+      rewrite Hwv. unfold outside_stack. rewrite <- (filter_out err awt m).
+      destruct (drv_cases err (S m)) as [-> | ->]; simpl; rewrite <- !app_assoc; reflexivity.
     + apply (all_bridging_hidden sc). exact H.
 Qed.
 
 Example greenback_example :
-  visible (match gb_extract {| sc_inside := true; sc_n := 2; sc_j := 1; sc_err := Some 1; sc_aio := true |} with GOk l => l | _ => [] end)
-  = [FShimCoro; FTarget; FA 2; FS 2; FA 1; FS 1; FA 0; FLeaf; FNested; FNested; FProbe].
+  visible (match gb_extract {| sc_inside := true; sc_n := 2; sc_j := 1; sc_err := Some 1; sc_aio := true; sc_awt := true |} with GOk l => l | _ => [] end)
+  = [FShimCoro; FTarget; FA 2; FS 2; FAdapt; FDunder; FA 1; FS 1; FAdapt; FDunder; FA 0; FLeaf; FNested; FNested; FProbe].
 Proof. reflexivity. Qed.
